@@ -307,6 +307,10 @@ func c02Sched(c *core.Ctx) {
 			x.Viol = c02SchedJudge(d, ref, label, obs)
 			return x
 		})
+		c.ExploreSlow(label, vsched.Config{}, []int{0, 150}, func(cfg vsched.Config) core.Exec {
+			obs, s := runExchangeMarked(cfg, d, sel, cs.split)
+			return core.Exec{Sched: s, Outcome: fmt.Sprintf("%s %s wire=%d", cs.sh.Name, cs.split, len(obs.Wire)), Viol: c02SchedJudge(d, ref, label, obs)}
+		})
 	}
 }
 
